@@ -21,7 +21,7 @@ def main(ctx):
     ctx.level = "proof"
     try:
         stage_cpp = H.build_stage_m1(ctx)
-        unit_c = H.build_state_unit(ctx)
+        unit_c, accessors = H.build_state_unit(ctx)
     except ExtractionError as e:
         ctx.undecide("extraction: %s" % e)
         return ctx.finish()
@@ -54,17 +54,6 @@ def main(ctx):
       fn="PerSubsystemInfo::invalidateStageJustThisSubsystem")
     R("subsys.advanceToStage", "h_advanceToStage", "advanceToStage", fn="PerSubsystemInfo::advanceToStage")
     R("state.getSubsystem", "h_getSubsystem", "StateImpl_getSubsystem", fn="StateImpl::getSubsystem")
-    NOTE = ["noteQChange", "noteUChange", "noteZChange"]
-    for v in "QUZ":
-        R("state.note%sChange" % v, "h_note%sChange" % v, "note%sChange" % v, fn="StateImpl::note%sChange" % v)
-    R("state.noteYChange", "h_noteYChange", "noteYChange", NOTE, fn="StateImpl::noteYChange")
-    LOOPREQ = (r"postcondition", r"loop_invariant_base", r"loop_invariant_step")
-    R("state.invalidateJustSystemStage", "h_invalidateJustSystemStage", "invalidateJustSystemStage", ["noteYChange"], loops=True, req=LOOPREQ,
-      fn="StateImpl::invalidateJustSystemStage")
-    R("state.invalidateAll", "h_invalidateAll", "invalidateAll", ["invalidateJustSystemStage", "invalidateStageJustThisSubsystem"], loops=True, req=LOOPREQ,
-      fn="StateImpl::invalidateAll")
-    R("state.invalidateAllCacheAtOrAbove", "h_invalidateAllCacheAtOrAbove", "invalidateAllCacheAtOrAbove",
-      ["invalidateJustSystemStage", "invalidateStageJustThisSubsystem"], loops=True, req=LOOPREQ, fn="StateImpl::invalidateAllCacheAtOrAbove")
     # ---- plain world: real bodies, explicit objects, executable container contracts ----
     ccp = cc + ["-DPLAIN_WORLD"]
     PCHK = ["--bounds-check", "--pointer-check", "--signed-overflow-check", "--unwind", "13", "--unwinding-assertions"]
@@ -78,5 +67,13 @@ def main(ctx):
     PW("ce.invalidate", "h_ce_invalidate", 4, "CacheEntryInfo::invalidate")
     for nm, n in [("read", 2), ("mark", 4), ("mark_window", 3), ("restore", 3), ("invalidate", 4), ("advance", 3), ("ce_invalidate", 3), ("initial", 2)]:
         PW("lvalid." + nm, "h_L_" + nm, n, "Lemma L-valid: " + nm)
+    PW("state.noteChange", "h_noteChange", 4, "StateImpl::noteQChange/noteUChange/noteZChange/noteYChange")
+    PW("state.invalidateJustSystemStage", "h_invalidateJustSystemStage", 8, "StateImpl::invalidateJustSystemStage")
+    for nm in ("invalidateAll", "invalidateAllCacheAtOrAbove"):
+        J(cbmc_unit, "state." + nm, us, "h_" + nm, no_dfcc=True, cc_args=ccp, cbmc_args=PCHK, min_obligations=12, function="StateImpl::" + nm, timeout=120,
+          require_props=[r"h_%s\.assertion" % nm, r"%s\.assertion" % nm])
+    for (cname, docstage, bumps, per_sub, doc) in accessors:
+        J(cbmc_unit, "acc." + cname, us, "h_acc_" + cname, no_dfcc=True, cc_args=ccp + ["-DINVALIDATEALL_BY_CONTRACT"], cbmc_args=PCHK, min_obligations=5,
+          function="StateImpl::" + cname.replace("_sub", "(SubsystemIndex)"), timeout=120, require_props=[r"h_acc_%s\.assertion" % cname])
     parallel(jobs)
     return ctx.finish(replayer=None)
